@@ -84,7 +84,7 @@ class X:
 
     def cmp(self):
         l, tl = self.sum()
-        if self.peek() in ("<", ">", "<=", ">=", "=="):
+        if self.peek() in ("<", ">", "<=", ">=", "==", "!="):
             op = self.eat(); r, tr_ = self.sum()
             if tl != "d" or tr_ != "d":
                 raise Tr("comparison of non-scalars")
@@ -96,6 +96,8 @@ class X:
                 return "(nleb N %s %s)" % (l, r), "b"
             if op == ">=":
                 return "(nleb N %s %s)" % (r, l), "b"
+            if op == "!=":
+                return "(negb (neqb N %s %s))" % (l, r), "b"
             return "(neqb N %s %s)" % (l, r), "b"
         return l, tl
 
@@ -194,7 +196,7 @@ class X:
                 raise Tr("vec3 constructor")
             return "(mkv %s %s %s)" % tuple(x for x, _ in a), "v"
         fun1 = {"std::sqrt": "(nsqrt N %s)", "std::cos": "(lcos L %s)", "std::sin": "(lsin L %s)", "std::tan": "(ltan L %s)", "std::acos": "(lacos L %s)",
-                "std::cbrt": "(lcbrt L %s)", "std::abs": "(nabs N %s)", "std::fabs": "(nabs N %s)", "cot": self.COT}
+                "std::cbrt": "(lcbrt L %s)", "std::exp": "(lexp L %s)", "std::log": "(llog L %s)", "std::abs": "(nabs N %s)", "std::fabs": "(nabs N %s)", "cot": self.COT}
         if tok in fun1:
             a = self.args()
             if len(a) != 1 or a[0][1] != "d":
